@@ -98,6 +98,20 @@ def lookup_chains(v, depth=0):
         return chain(v[1], v[2], ("raise", ("global", "KeyError")))
     if v[0] == "meth" and v[2] == "get" and table(v[1]) and len(v[3]) in (1, 2) and not v[4]:
         return chain(v[1], v[3][0], v[3][1] if len(v[3]) == 2 else ("const", None))
+    # a template picked from the table and filled in: <phi of literal templates>.format(..) / <phi> % (..) is the phi of the filled templates
+    if (v[0] == "meth" and v[2] == "format" and v[1][0] == "phi") or (v[0] == "binop" and v[1] == "Mod" and v[2][0] == "phi"):
+        def fill(t):
+            if t[0] == "phi":
+                a, b = fill(t[2]), fill(t[3])
+                return None if a is None or b is None else ("phi", t[1], a, b)
+            if t[0] == "raise":
+                return t
+            if t[0] == "const" and isinstance(t[1], str):
+                return Flow._format_to_fstr(t[1], v[3], dict(v[4])) if v[0] == "meth" else Flow._percent_to_fstr(t[1], v[3])
+            return None
+        r = fill(v[1] if v[0] == "meth" else v[2])
+        if r is not None:
+            return r
     if v[0] == "call" and v[1][0] == "phi" and not v[3] and not any(a[0] == "star" for a in v[2]):
         def apply(f):
             if f[0] == "phi":
